@@ -48,13 +48,64 @@ def _work(arg):
     except BaseException as e:   # noqa: BLE001
         import traceback
         from . import symx
-        budget = isinstance(e, symx.Budget)     # time/path budget exhausted: inconclusive (reported, never success), not a harness fault
-        return {'oid': ob.oid, 'harness_errors': [] if budget else [f'{ob.oid}: worker crashed: {type(e).__name__}: {e}'],
-                'notes': [traceback.format_exc(limit=10)], 'paths': 0, 'claims': 0, 'unsat': 0, 'sat': 0,
-                'unknown': 1 if budget else 0, 'trivial': 0, 'violations': [], 'known': [], 'unconfirmed': [],
-                'inconclusive': [f'{ob.oid}: {e} (whole obligation undecided)'] if budget else [],
-                'validated': 0, 'replays': 0, 'samples': [], 'solver_s': 0.0, 'wall_s': 0.0, 'decisions': 0,
-                'feas_queries': 0, 'feas_unknown': 0, 'reach': 0, 'bounds': '', 'stubs': [], 'funcs': []}
+        if isinstance(e, symx.Budget):  # time/path budget exhausted: inconclusive (reported, never success), not a harness fault
+            return _blank(ob.oid, inconclusive=[f'{ob.oid}: {e} (whole obligation undecided)'], notes=[traceback.format_exc(limit=10)])
+        return _blank(ob.oid, harness_errors=[f'{ob.oid}: worker crashed: {type(e).__name__}: {e}'], notes=[traceback.format_exc(limit=10)])
+
+
+def _blank(oid, harness_errors=(), inconclusive=(), notes=()):
+    return {'oid': oid, 'harness_errors': list(harness_errors), 'notes': list(notes), 'paths': 0, 'claims': 0, 'unsat': 0, 'sat': 0,
+            'unknown': 1 if inconclusive else 0, 'trivial': 0, 'violations': [], 'known': [], 'unconfirmed': [],
+            'inconclusive': list(inconclusive), 'validated': 0, 'replays': 0, 'samples': [], 'solver_s': 0.0, 'wall_s': 0.0,
+            'decisions': 0, 'feas_queries': 0, 'feas_unknown': 0, 'reach': 0, 'bounds': '', 'stubs': [], 'funcs': []}
+
+
+def _child(arg, conn):
+    try:
+        conn.send(_work(arg))
+    finally:
+        conn.close()
+
+
+def run_all(prop, idxs, tier, obs, jobs, verbose=False):
+    """One forked process per obligation (stubs are monkey-patched module globals and must not leak).  A z3 call that ignores
+    its timeout also blocks the in-process SIGALRM handler, so the parent enforces a hard limit: an obligation still running
+    60 s after its own alarm is killed and reported as INCONCLUSIVE (never as success)."""
+    from multiprocessing import connection
+    ctx = multiprocessing.get_context('fork')
+    pending = list(idxs)
+    running = {}
+    results = []
+    while pending or running:
+        while pending and len(running) < jobs:
+            i = pending.pop(0)
+            rd, wr = ctx.Pipe(duplex=False)
+            p = ctx.Process(target=_child, args=((prop, i, tier), wr))
+            p.start()
+            wr.close()
+            limit = int(getattr(obs[i], 'wall_s', 600) * 2 + 120) + 60
+            running[p.pid] = (p, rd, i, time.time(), limit)
+        ready = connection.wait([v[1] for v in running.values()], timeout=0.5)
+        for pid, (p, rd, i, ts, limit) in list(running.items()):
+            r = None
+            if rd in ready:
+                try:
+                    r = rd.recv()
+                except EOFError:
+                    r = _blank(obs[i].oid, harness_errors=[f'{obs[i].oid}: worker died without a result'])
+                p.join()
+            elif time.time() - ts > limit:
+                p.kill()
+                p.join()
+                r = _blank(obs[i].oid, inconclusive=[f'{obs[i].oid}: hard wall-clock limit of {limit} s (solver did not return; whole obligation undecided)'])
+            if r is not None:
+                rd.close()
+                del running[pid]
+                results.append(r)
+                if verbose:
+                    print(f"  [{r['oid']}] paths={r['paths']} claims={r['claims']} unsat={r['unsat']} sat={r['sat']} "
+                          f"unknown={r['unknown']} wall={r['wall_s']:.1f}s", flush=True)
+    return results
 
 
 def _safe(s):
@@ -83,14 +134,7 @@ def main(argv=None):
 
     obs = mod.obligations(tier)
     idxs = [i for i, o in enumerate(obs) if not a.only or a.only in o.oid]
-    ctx = multiprocessing.get_context('fork')
-    with ctx.Pool(min(a.j, max(1, len(idxs))), maxtasksperchild=1) as pool:
-        results = []
-        for r in pool.imap_unordered(_work, [(prop, i, tier) for i in idxs], chunksize=1):
-            results.append(r)
-            if os.environ.get('VERIF_VERBOSE'):
-                print(f"  [{r['oid']}] paths={r['paths']} claims={r['claims']} unsat={r['unsat']} sat={r['sat']} "
-                      f"unknown={r['unknown']} wall={r['wall_s']:.1f}s", flush=True)
+    results = run_all(prop, idxs, tier, obs, min(a.j, max(1, len(idxs))), verbose=bool(os.environ.get('VERIF_VERBOSE')))
     results.sort(key=lambda r: r['oid'])
 
     rc = 0
